@@ -34,7 +34,11 @@ def render(c):
     sub1 = ("$(%s)" if c["sp"] == "dollar" else "`%s`") % inner(k)
     word = chars(c["pre"]) + sub1
     if c["two"]:
-        word += "+" + (("$(%s)" if c["sp"] == "dollar" else "`%s`") % "vout 2")
+        second = ("$(%s)" if c["sp"] == "dollar" else "`%s`") % "vout 2"
+        if c.get("sepwords"):
+            word += ('" "' if c["ctx"] == "dq" else " ") + second
+        else:
+            word += "+" + second
     word += chars(c["post"])
     pre = "alias zz=vq ; " if k == "builtin" else ""
     ctx = c["ctx"]
@@ -117,7 +121,15 @@ def judge(rep, c, line, res):
     if len(pa) != 1:
         return bad("not-run", "the outer command ran %d times" % len(pa))
     argv = pa[0].get("argv")
-    if c["ctx"] in ("dq", "assign"):
+    if c.get("sepwords"):
+        # two words: pre+out1 and out2+post (an empty unquoted word vanishes; blanks may split an unquoted word)
+        o1t, o2t = o1.rstrip("\n"), o2.rstrip("\n")
+        w1, w2 = chars(c["pre"]) + o1t, o2t + chars(c["post"])
+        if c["ctx"] == "dq":
+            alts = [["L", w1, w2, "R"]]
+        else:
+            alts = [["L"] + [w for w in (w1, w2) if w != ""] + ["R"], ["L", w1, w2, "R"], ["L"] + w1.split() + w2.split() + ["R"]]
+    elif c["ctx"] in ("dq", "assign"):
         alts = [["L", val, "R"]]
     else:
         alts = [["L", val, "R"] if val != "" else ["L", "R"]]
@@ -159,6 +171,9 @@ def runner(rep, tier, seed, replay):
             vol.append(dict(c, kind="simple", volume="both"))
             vol.append(dict(c, kind="simple", volume="bigout-mb"))
     cases += vol
+    # two substitutions as two separate words of one command (each spliced into its own word, each inner command run once)
+    tw = [dict(c, sepwords=True) for c in cases if c["two"] and c["ctx"] in ("unq", "dq") and c["kind"] == "simple" and c["shape"] == "whole"]
+    cases += tw
     log("[C11] %d cases" % len(cases))
     jobs = []
     for c in cases:
